@@ -1,6 +1,6 @@
 package roprometheus
 
-// Code generated by /verif/harness/prometheus/gen_arity.py. DO NOT EDIT.
+// The PipeN switch was generated once; the file is now maintained by hand.
 
 import (
 	"context"
@@ -30,6 +30,12 @@ func vC19Arity(L int) {
 	var o [25]func(ro.Observable[int64]) ro.Observable[int64]
 	for i := 1; i <= 24; i++ {
 		o[i] = vOpF(i)
+	}
+	// one position (or none) holds an operator that changes the number of values: an observation
+	// point placed on the wrong side of an operator then counts the wrong stream
+	fpos := 1 + vChoice("fpos", 25)
+	if fpos <= 24 {
+		o[fpos] = ro.Filter(func(v int64) bool { return vUFBool("keep", v) })
 	}
 	var obs ro.Observable[int64]
 	var col prometheus.Collector
@@ -96,10 +102,17 @@ func vC19Arity(L int) {
 		vAssert(vPromCount(pc.NotificationsInTotal) == n, "prometheus pipe (arity): notifications-in counter differs from the values emitted by the source")
 		vAssert(vPromCount(pc.NotificationsOutTotal) == int64(got.nexts()), "prometheus pipe (arity): notifications-out counter differs from the values emitted by the chain")
 		if c := vPromCount(pc.OperatorProcessingTimeSeconds); c >= 0 {
-			vAssert(c == n*int64(arity), "prometheus pipe (arity): not exactly one processing-time observation per value leaving each operator")
+			kept := int64(got.nexts()) // values leaving the filter (every later operator is one-to-one)
+			total := int64(0)
 			for k := 0; k < arity; k++ {
-				vAssert(vPromCountL(pc.OperatorProcessingTimeSeconds, "operator_index", vItoa(k)) == n, "prometheus pipe (arity): the processing-time observations of an operator are exported under another operator's index")
+				want := n
+				if k+1 >= fpos {
+					want = kept
+				}
+				total += want
+				vAssert(vPromCountL(pc.OperatorProcessingTimeSeconds, "operator_index", vItoa(k)) == want, "prometheus pipe (arity): the processing-time observations under an operator's index are not one per value leaving that operator")
 			}
+			vAssert(c == total, "prometheus pipe (arity): not exactly one processing-time observation per value leaving each operator")
 		}
 	}
 	bypassLicenseCheck = false
